@@ -420,8 +420,11 @@ where
         let stats = sim.run().await;
         (stats, r)
     });
-    // dropping the runtime cancels whatever the library spawned
+    // dropping the runtime cancels whatever the library spawned; what that teardown logs is
+    // not part of the execution
+    let end_len = crate::world::lock(&w.st).log.len();
     let _ = catch_unwind(AssertUnwindSafe(move || drop(rt)));
+    crate::world::lock(&w.st).log.truncate(end_len);
     (w, stats, r)
 }
 
